@@ -718,6 +718,20 @@ def check_patched_reply(scn, arg):
                 # the wrapper's general status is an error although member replies follow (0x1E and 6 are the legitimate exceptions)
                 front = _Patch(tgt, lambda f: len(f) > 47 and f[0] == 0x70 and f[46] == 0x0A, lambda r: r[:48] + bytes([arg]) + r[49:])
                 call = lambda: plc.read("A", "B{2}")
+            elif scn in ("readfrag.mid.estatus", "readfrag.mid.service"):
+                # the k-th reply of a three-fragment read (general status 6, 6, 0) is made unacceptable - a non-zero encapsulation status, or
+                # the reply service of a service that does not continue - while the other fragments are answered properly
+                k, val = arg
+                seen = [0]
+
+                def when(f):
+                    if len(f) > 47 and f[0] == 0x70 and f[46] == 0x52:
+                        seen[0] += 1
+                        return seen[0] - 1 == k
+                    return False
+                how = (lambda r: r[:8] + struct.pack("<I", val) + r[12:]) if scn.endswith("estatus") else (lambda r: r[:46] + bytes([val | 0x80]) + r[47:])
+                front = _Patch(tgt, when, how)
+                call = lambda: plc.read("big{300}")
             else:   # "readfrag.cut": the first reply of a fragmented read is cut to `arg` bytes
                 front = _Patch(tgt, lambda f: len(f) > 47 and f[0] == 0x70 and f[46] == 0x52 and front.hits == 0, lambda r: r[:arg])
                 call = lambda: plc.read("big{300}")
@@ -725,7 +739,7 @@ def check_patched_reply(scn, arg):
             got = guard(scn, call)
             if got is not PycommError and front.hits:
                 tags = got if isinstance(got, list) else [got]
-                if (scn == "multi.gstatus" or arg < 50) and all(bool(t) for t in tags):
+                if (scn == "multi.gstatus" or scn.startswith("readfrag.mid") or arg < 50) and all(bool(t) for t in tags):
                     discs.append(Disc(f"patched.{scn.split('.')[0]}.error-accepted", f"{scn} {arg}: every result is truthy: {str(tags)[:200]}"))
             guard("close", plc.close)
     finally:
@@ -890,11 +904,13 @@ def run_job(ctx, job):
                     ctx.case(("wrapper", op, status, tuple(ext)), True, ["matrix", "wrapper-refusal"])
             if op == "read":
                 cases = [("list_identity.estatus", e) for e in (1, 2, 3, 0x64, 0x65, 0x69, 0xFFFF)] + [("template.estatus", e) for e in (1, 3, 0x64)] + \
-                        [("multi.gstatus", g) for g in (1, 2, 4, 5, 8, 0x13, 0x20, 0xFF)] + [("readfrag.cut", c) for c in range(0, 64)]
+                        [("multi.gstatus", g) for g in (1, 2, 4, 5, 8, 0x13, 0x20, 0xFF)] + [("readfrag.cut", c) for c in range(0, 64)] + \
+                        [("readfrag.mid.estatus", [k, e]) for k in (0, 1, 2) for e in (1, 3, 0x64, 0x65, 0xFFFF)] + \
+                        [("readfrag.mid.service", [k, v]) for k in (0, 1) for v in (0x4C, 0x4D, 0x0E, 0x4E, 0x01)]
                 for scn, a in cases:
                     for d in check_patched_reply(scn, a):
                         ctx.violation(d, "patched", {"scn": scn, "arg": a})
-                    ctx.case(("patched", scn, a), True, ["corrupt", "patched-reply"])
+                    ctx.case(("patched", scn, tuple(a) if isinstance(a, list) else a), True, ["corrupt", "patched-reply"])
             for us in [0, 1, 1_600_000_000_000_000, 253402300799999999, 253402300800000000, 2 ** 63 - 1, 2 ** 63, 2 ** 64 - 1]:
                 for d in check_time_value(us):
                     ctx.violation(d, "time", {"us": us})
